@@ -383,4 +383,20 @@ theorem vert_u16_avx2_masks :
 theorem vert_u16_avx2_source_as_modelled : Fir.Gen.vert_u16_avx2_skeleton =
     "_mm256_set1_epi64x(1 << (precision - 1)) ; chunks_exact_mut(16) ; iter_rows(y_start) ; _mm256_set1_epi64x(coeff as i64) ; simd_utils::loadu_si256(components, src_x) ; _mm256_shuffle_epi8(source, shuffles[i]) ; _mm256_add_epi64(sum[i], _mm256_mul_epi32(comp_i64x4, coeff_i64x4)) ; _mm256_storeu_si256(comp_buf.as_mut_ptr() as *mut __m256i, sum[i]) ; get_unchecked_mut(i * 2) ; normalizer.clip(comp_buf[0]) ; get_unchecked_mut(i * 2 + 1) ; normalizer.clip(comp_buf[1]) ; get_unchecked_mut(i * 2 + 8) ; normalizer.clip(comp_buf[2]) ; get_unchecked_mut(i * 2 + 9) ; normalizer.clip(comp_buf[3]) ; into_remainder() ; iter_rows(y_start) ; get_unchecked(src_x..) ; _mm256_set1_epi64x(coeff as i64) ; simd_utils::loadu_si256(&buf, 0) ; _mm256_shuffle_epi8(source, shuffles[i]) ; _mm256_add_epi64(sum[i], _mm256_mul_epi32(comp_i64x4, coeff_i64x4)) ; _mm256_storeu_si256(comp_buf.as_mut_ptr() as *mut __m256i, sum[i]) ; get_unchecked_mut(i * 2) ; normalizer.clip(comp_buf[0]) ; get_unchecked_mut(i * 2 + 1) ; normalizer.clip(comp_buf[1]) ; get_unchecked_mut(i * 2 + 8) ; normalizer.clip(comp_buf[2]) ; get_unchecked_mut(i * 2 + 9) ; normalizer.clip(comp_buf[3])" := by rfl
 
+/-! ### RGB8: the four-row kernel of the same pass -/
+
+/-- per row, `horiz_convolution_four_rows` of src/convolution/u8x3/sse4.rs puts the same bytes into its registers as the
+    one-row kernel (masks `sh_lo`, `sh_hi` = `pix_sh1`, `pix_sh2`; cloned coefficient pairs = shuffled coefficient
+    register), under the same loop guards: it stores the same pixel, so the whole SSE4.1 horizontal pass of RGB8 equals
+    the portable pass -/
+theorem u8x3_sse4_four_rows_eq_portable (p w : Nat) (hp : p < 32) (row : List Int) (start : Nat) (ks : List Int) :
+    Fir.SimdU8x3.pixelR p w row start ks
+      = [clip8 (2 ^ (p - 1) + Fir.SimdU8x3.dotC3 row 0 ks start) p, clip8 (2 ^ (p - 1) + Fir.SimdU8x3.dotC3 row 1 ks start) p,
+         clip8 (2 ^ (p - 1) + Fir.SimdU8x3.dotC3 row 2 ks start) p] := by
+  rw [Fir.Proofs.u8x3_sse4_four_rows_eq_one_row]
+  exact Fir.Proofs.u8x3_sse4_pixel_eq_portable p w hp row start ks
+
+theorem u8x3_sse4_four_rows_source_as_modelled : Fir.Gen.u8x3_sse4_four_rows_skeleton =
+    "_mm_setzero_si128() ; _mm_set1_epi32(1 << (PRECISION - 1)) ; saturating_sub(5) ; chunks_exact(4) ; simd_utils::mm_load_and_clone_i16x2(k) ; simd_utils::mm_load_and_clone_i16x2(&k[2..]) ; simd_utils::loadu_si128(src_rows[i], x) ; _mm_shuffle_epi8(source, sh_lo) ; _mm_add_epi32(sss, _mm_madd_epi16(pix, mmk0)) ; _mm_shuffle_epi8(source, sh_hi) ; _mm_add_epi32(sss, _mm_madd_epi16(pix, mmk1)) ; saturating_sub(2) ; chunks_exact(2) ; simd_utils::mm_load_and_clone_i16x2(k) ; simd_utils::loadl_epi64(src_rows[i], x) ; _mm_shuffle_epi8(source, sh_lo) ; _mm_add_epi32(sss_a[i], _mm_madd_epi16(pix, mmk)) ; split_at(x - x_start) ; _mm_set1_epi32(k as i32) ; simd_utils::mm_cvtepu8_epi32_u8x3(src_rows[i], x) ; _mm_add_epi32(sss_a[i], _mm_madd_epi16(pix, mmk)) ; _mm_srai_epi32::<PRECISION>(sss_a[0]) ; _mm_srai_epi32::<PRECISION>(sss_a[1]) ; _mm_srai_epi32::<PRECISION>(sss_a[2]) ; _mm_srai_epi32::<PRECISION>(sss_a[3]) ; _mm_packs_epi32(sss_a[i], zero) ; _mm_cvtsi128_si32(_mm_packus_epi16(sss, zero)) | if x < max_x ; if x >= max_x ; if x < max_x ; if x >= max_x" := by rfl
+
 end Fir.C02
